@@ -4,6 +4,7 @@ import (
 	"context"
 	"database/sql"
 	"fmt"
+	"strings"
 	"sync"
 	"testing"
 	"time"
@@ -156,4 +157,89 @@ func TestC07WitnessPrepareStmtBoundedPool(t *testing.T) {
 		eb, ea := <-bDone, <-aDone
 		t.Fatalf("C07 violated: deadlock - with PrepareStmt and SetMaxOpenConns(1) neither the Find inside db.Transaction nor the same Find outside it returned within 10s (after cancelling the outer call's context: outer=%v, block=%v)", eb, ea)
 	}
+}
+
+// TestC07WitnessOwnerFirstUseTargetInUse: the listed finding owner-first-use-target-in-use. Depot
+// (and with it Parcel, the target of its has-many relation) is parsed and used before the barrier.
+// Then three goroutines append parcels to depots of their own through association mode
+// (db.Model(&depot).Association("Parcels").Append(&parcels)) while three others make their first
+// call - a Find - on Courier, Customs and Sorter, the other types that have a has-many / has-one
+// relation to Parcel; 50 fresh handles. Every call returns what it returns alone, but the parse of
+// an owner type writes the reverse relation "_Courier_Parcels" into Parcel's
+// Relationships.Relations map (schema.(*Schema).parseRelation, relationship.go:106, under a mutex
+// that no reader takes) while the nested save of the appended parcels, which runs with
+// Omit(clause.Associations), iterates that map (Statement.SelectAndOmitColumns, statement.go:718):
+// a data race that the runtime may end with "fatal error: concurrent map iteration and map
+// write". The test asserts the property (no race report), so it fails while the defect exists; it
+// needs the race detector.
+func TestC07WitnessOwnerFirstUseTargetInUse(t *testing.T) {
+	if !raceEnabled {
+		t.Log("built without -race: only the results of the calls are checked")
+	}
+	before := raceReports()
+	c := &Case{G: 6, Warm: "one", WarmOne: mDepot}
+	for round := 0; round < 50; round++ {
+		c.SkipTx = round%2 == 0
+		d := openCase(c)
+		d.warm(c)
+		if res := exec(d.DB, 0, Op{K: "find", M: mParcel}); !strings.HasPrefix(res, "ok ra=2") {
+			t.Fatalf("harness: Find on Parcel before the barrier: %s", res)
+		}
+		start := make(chan struct{})
+		errs := make([]string, c.G)
+		var wg sync.WaitGroup
+		for g := 0; g < c.G; g++ {
+			wg.Add(1)
+			go func(g int) {
+				defer wg.Done()
+				defer func() {
+					if p := recover(); p != nil {
+						errs[g] = fmt.Sprintf("panic: %v", p)
+					}
+				}()
+				<-start
+				if g%2 == 0 {
+					for k := 3; k <= 6; k++ {
+						if res := exec(d.DB, g, Op{K: "aappend", M: mDepot, A: 1, B: k, V: k, R: "Parcels"}); !strings.HasPrefix(res, "ok owner=Depot{") {
+							errs[g] = fmt.Sprintf("Association(Parcels).Append returned %q", res)
+						}
+					}
+					return
+				}
+				m := []int{mCourier, mCustoms, mSorter}[(g/2+round)%3]
+				want := fmt.Sprintf("ok ra=2 [%s %s]", render(seedOwner(m, g, 1)), render(seedOwner(m, g, 2)))
+				if res := exec(d.DB, g, Op{K: "find", M: m}); res != want {
+					errs[g] = fmt.Sprintf("first Find on %s returned %q, alone it returns %q", modelNames[m], res, want)
+				}
+			}(g)
+		}
+		close(start)
+		wg.Wait()
+		d.Close()
+		for g, e := range errs {
+			if e != "" {
+				t.Errorf("C07 violated: round %d goroutine %d: %s", round, g, e)
+			}
+		}
+	}
+	if n := raceReports() - before; n > 0 {
+		t.Fatalf("C07 violated: %d data race report(s) while owner types of an already used target type were used for the first time and rows of the target type were appended through association mode (6 goroutines x 50 handles; reports on stderr)", n)
+	}
+}
+
+// seedOwner: the seeded row k (1 or 2) of goroutine g in an owner table.
+func seedOwner(m, g, k int) interface{} {
+	v := build(m, g, k, 0, 0)
+	name := fmt.Sprintf("seed%d", k)
+	switch x := v.(type) {
+	case *Depot:
+		x.Name = name
+	case *Courier:
+		x.Name = name
+	case *Customs:
+		x.Name = name
+	case *Sorter:
+		x.Name = name
+	}
+	return v
 }
